@@ -30,6 +30,7 @@
 #include <ftp/detail/binary_ostream.hpp>
 #include <ftp/stream/ostream_adapter.hpp>
 #include <ftp/detail/net_utils.hpp>
+#include <algorithm>
 #include <sstream>
 
 namespace ftp
@@ -1113,36 +1114,42 @@ std::string client::make_command(std::string_view command, const std::optional<s
     return result;
 }
 
+/* An observer may unregister observers - itself included - from inside a
+ * callback, which invalidates an iteration over the list. Go through a copy
+ * of the list and skip the observers that are no longer registered.
+ */
+template<typename func_type>
+static void for_each_observer(const std::list<std::shared_ptr<observer>> & observers, func_type func)
+{
+    const std::list<std::shared_ptr<observer>> registered = observers;
+
+    for (const std::shared_ptr<observer> & observer : registered)
+    {
+        if (std::find(observers.begin(), observers.end(), observer) != observers.end())
+        {
+            func(*observer);
+        }
+    }
+}
+
 void client::notify_connected(std::string_view hostname, std::uint16_t port)
 {
-    for (const std::shared_ptr<observer> & observer : observers_)
-    {
-        observer->on_connected(hostname, port);
-    }
+    for_each_observer(observers_, [&](observer & observer) { observer.on_connected(hostname, port); });
 }
 
 void client::notify_request(std::string_view command)
 {
-    for (const std::shared_ptr<observer> & observer : observers_)
-    {
-        observer->on_request(command);
-    }
+    for_each_observer(observers_, [&](observer & observer) { observer.on_request(command); });
 }
 
 void client::notify_reply(const reply & reply)
 {
-    for (const std::shared_ptr<observer> & observer : observers_)
-    {
-        observer->on_reply(reply);
-    }
+    for_each_observer(observers_, [&](observer & observer) { observer.on_reply(reply); });
 }
 
 void client::notify_file_list(std::string_view file_list)
 {
-    for (const std::shared_ptr<observer> & observer : observers_)
-    {
-        observer->on_file_list(file_list);
-    }
+    for_each_observer(observers_, [&](observer & observer) { observer.on_file_list(file_list); });
 }
 
 } // namespace ftp
